@@ -1,1 +1,2 @@
+pub mod refhash;
 pub mod refserde;
